@@ -22,6 +22,7 @@ func init() {
 			"R2": "guard ↔ action agreement and priority order",
 			"R3": "pay amounts are the posted ante / blind for the player's position, and the Actions wrapper and engine adapter forward operation, id and amount unchanged to the engine (shared with C18.R5)",
 			"R4": "automation only when suspended or inside the action-time timer callback (not cancelled)",
+			"R8": "the actor hands every view to its runner with its own mutex held exclusively: the runner's freshness test and update (check-then-set, no lock of its own) are atomic only because of that — without it one request is answered twice / two timers are armed",
 			"R6": "receiver discipline: no method of these types assigns to a field of a value receiver (the assignment would be lost) or copies a sync.* field through its receiver (player runner — status, idle count, remembered view time —, actor, actions, engine adapter)",
 			"R5": "timer discipline: the runner's time bank is created once, by the constructor (a replaced time bank orphans the pending task, which then auto-plays a stale request before the new thinking time has elapsed); a view discarded by the staleness filter performs no time-bank operation",
 		},
@@ -99,6 +100,7 @@ func checkPayAmount(c *Ctx, rule, key string, ci ssa.CallInstruction) {
 func checkC19(c *Ctx) {
 	p := c.P
 	checkReceiverDiscipline(c, "R6", p.implementersIn("/actor", "Runner", "Actor", "Actions", "Adapter"), 30)
+	checkActorSerialisesRunner(c, "R8")
 	checkNoKnownNilErrorReturn(c, "R1", func(f *ssa.Function) bool { return inPkg(p, f, "/actor") }, 5)
 	ri := p.Iface("/actor", "Runner")
 	if ri == nil {
@@ -189,6 +191,10 @@ func checkC19(c *Ctx) {
 				a := l.Strip().Args[0].Strip()
 				return a.Kind == "field" && a.Name == "AllowedActions" && a.Args[0].Strip().IsCall("pokerface.GameState.GetPlayer") && a.Args[0].Strip().Args[1].Strip().String() == idx.String()
 			})
+			// … and only for a view that passed the freshness comparison, whatever hand it says it is of (C18.R6's
+			// obligation for the bot; here a late view of an earlier hand would re-arm the timer with that hand's
+			// state, and auto-play would then pay the blind that was due in the hand that is over)
+			checkFilterOnEveryView(c, "R7", entry, ci, canonTypeName(runnerT.Obj()))
 			c.Check(asked, "R7", "request:own-entry-is-asked", where, "only when the runner's own entry has allowed actions", "the player runner arms its timer without testing that its own entry of the hand is asked for anything")
 		}
 		c.Min("R7", "move requests in the player runner's view handler", nReq, 1)
